@@ -44,7 +44,7 @@ ASSUMPTIONS = [
 ]
 REAL_STUB = {"real": ["onnx_ir.serde (to_proto / from_proto)", "onnx_ir core"], "stub": [], "harness_extension_points": ["LazyTensor thunks"]}
 
-EDITS = ["drop_type", "drop_shape", "empty_optional_output", "none_input", "rename_value", "rename_node", "add_node", "remove_unused", "doc", "metadata", "attr_set", "attr_del", "retensor", "symbolic_shape", "denotation", "seq_type", "shadow_name", "shadow_name"]
+EDITS = ["drop_type", "drop_shape", "empty_optional_output", "none_input", "rename_value", "rename_node", "add_node", "remove_unused", "doc", "metadata", "attr_set", "attr_del", "retensor", "symbolic_shape", "denotation", "seq_type", "shadow_name", "shadow_name", "share_tensor", "share_tensor"]
 
 
 def gen_case(run_seed: int, tier: str, index: int = 0) -> dict:
@@ -171,6 +171,21 @@ def apply_edit(model, edit, fresh) -> str:
                 iv.const_value.doc_string = "tensor doc"
             except Exception:  # noqa: BLE001
                 pass
+    elif kind == "share_tensor":
+        # two differently named initializers backed by ONE tensor object (e.g. tied weights)
+        for g in model.graphs():
+            inits = [x for x in g.initializers.values() if x.const_value is not None]
+            if len(inits) >= 2:
+                src, dst = inits[a % len(inits)], inits[(a + 1 + b % (len(inits) - 1)) % len(inits)]
+                if src is dst:
+                    continue
+                dst.const_value = src.const_value
+                t = src.const_value
+                if dst.shape is not None or dst.type is not None:
+                    dst.shape = ir.Shape(list(t.shape.numpy())) if dst.shape is not None else None
+                    dst.type = ir.TensorType(t.dtype) if dst.type is not None else None
+                return "ok"
+        return "noop"
     elif kind == "shadow_name":
         # a value defined inside a nested graph takes the name of a value visible from an enclosing graph that the
         # nested graph (and anything below it) does not use: legal in the IR, and the inner definition must win inside
@@ -313,9 +328,15 @@ def run_case(case: dict) -> dict:
     if v is None and p1 is not None:
         inc("roundtrip_compared")
         # every initializer tensor's own name is aligned with its value's name (the one permitted side effect)
+        sharers: dict = {}
         for g in model.graphs():
             for name, val in g.initializers.items():
-                if val.const_value is not None and val.const_value.name != name:
+                if val.const_value is not None:
+                    sharers.setdefault(id(val.const_value), []).append(name)
+        for g in model.graphs():
+            for name, val in g.initializers.items():
+                # a tensor object shared by several initializers can carry only one of their names
+                if val.const_value is not None and val.const_value.name not in sharers[id(val.const_value)]:
                     v = {"clause": "initializer-tensor-name", "detail": f"after to_proto the tensor of initializer {name!r} is named {val.const_value.name!r}", "key": "initializer-tensor-name"}
         if v is None:
             try:
